@@ -1083,6 +1083,22 @@ def c17(report, rng, tier, findings):
                 cond = ('not', cond)
             case = {'sel': [('var', 1)], 'cond': [cond], 'entity': True, 'vars': [(0, 'A', praw), (1, 'B', oraw)]}
         case.update({'id': f'c{i}', 'classes': [('A', '-'), ('B', '-')], 'objs': objs, 'quant': 'an', 'kind': kind})
+        if i % 9 == 4 and kind in ('value', 'member', 'notmember', 'contains') and praw and praw[0][1] < npar:
+            # the PARENT is restricted by a sub-query: concatenate(an(entity(p, p.a op k)).items) ranges over the selected
+            # parents only; the explicit twin ranges over the parents that satisfy the condition
+            pc = ('cmp', rng.choice(('ge', 'le', 'ne', 'eq')), ('attr', 'a', ('var', 0)), ('lit', ('i', rng.randint(0, 3))))
+            o_ = surface.Oracle({**case, 'sel': [('var', 0)], 'cond': None})
+            keep = [v for v in praw if o_.holds(pc, {0: v})]
+            Cs = ('concat', 200, ('attr', 'items', ('subq', 'an', 0, pc)))
+
+            def swap(t):
+                if t == C:
+                    return Cs
+                return tuple(swap(y) if isinstance(y, tuple) else y for y in t) if isinstance(t, tuple) else t
+            twin = {**case, 'vars': [(0, 'A', keep)] + list(case['vars'][1:])}
+            case = {**case, 'sel': [swap(t) for t in case['sel']], 'cond': [swap(c) for c in case['cond']] if case.get('cond') else None}
+            case['explicit'] = twin
+            report.count('parent_restricted_by_a_subquery')
         if rng.random() < 0.4:
             case['pre_take'] = rng.randint(1, 2)       # after an evaluation of the same query abandoned at its k-th row
             report.count('after_an_abandoned_evaluation')
